@@ -1,10 +1,11 @@
 #!/bin/sh
-# usage: run/ingest.sh seed C06 ... | benign C13C14 ...   -- files the output of a seeding sub-agent under /verif
+# usage: run/ingest.sh seed <round-letter> C06 ... | benign C13C14 ...   -- files the output of a seeding sub-agent under /verif
 kind=$1; shift
 cd /verif
+if [ "$kind" = seed ]; then r=$1; shift; fi
 for x in "$@"; do
   if [ "$kind" = seed ]; then
-    timeout 900 python3 run/seedtool.py confirm ${x}_c $x /tmp/seedc_$x/OUT/patch.diff /tmp/seedc_$x/OUT/demo_test.go /tmp/seedc_$x/OUT/notes.md 2>&1 | grep -v "_tail" | tr -d '\n'; echo
+    timeout 900 python3 run/seedtool.py confirm ${x}_$r $x /tmp/seed${r}_$x/OUT/patch.diff /tmp/seed${r}_$x/OUT/demo_test.go /tmp/seed${r}_$x/OUT/notes.md 2>&1 | grep -v "_tail" | tr -d '\n'; echo
   else
     for i in 1 2 3 4; do [ -f /tmp/benign_$x/OUT/benign$i.diff ] && cp /tmp/benign_$x/OUT/benign$i.diff benign/${x}_$i.diff; done
     cp /tmp/benign_$x/OUT/benign.md benign/$x.md; ls benign/${x}_*.diff
